@@ -576,7 +576,9 @@ Fixpoint ev_get (p : path) (v : ev) : option ev :=
    StringToTimeDurationHookFunc matter for the kinds covered here):
      bool    <- bool only
      string  <- string only
-     int     <- int, uint, and ALSO float: int64(f), i.e. truncated towards zero, no error
+     int     <- int, uint, and float WITHOUT a fractional part (confmap's fractionToIntegerHookFunc,
+                fix 91bc960c3, rejects a float with a fraction for every integer kind; before it
+                mapstructure's int64(f) truncated it silently)
      uint    <- the same, negative values rejected
      float   <- int, uint, float
      duration (int64 + hook)  <- string through time.ParseDuration, otherwise as int (ns)
@@ -614,7 +616,8 @@ Definition split_comma (s : string) : list string :=
 Definition decode_num (unsigned : bool) (w : wv) : dres :=
   match w with
   | WInt z => if unsigned && (z <? 0)%Z then DErr else DNum z false
-  | WFloat z _ => if unsigned && (z <? 0)%Z then DErr else DNum z false   (* int64(f): fraction dropped *)
+  | WFloat _ true => DErr                                                    (* fractionToIntegerHookFunc *)
+  | WFloat z false => if unsigned && (z <? 0)%Z then DErr else DNum z false
   | _ => DErr
   end.
 
@@ -732,10 +735,9 @@ Fixpoint notify (conf : cv) (exts : list (option (list (path * cv)))) : list (cv
      XLeaf z s       scalar, or a TextMarshaler that is not opaque (its text s); z = reflect IsZero
      XOpaque z s     configopaque-like TextMarshaler: the marker, whatever the secret s is
      XList n l       slice (n = it is nil): element-wise
-     XArray l        array: falls into the DEFAULT branch — only the hooks on the whole value, the
-                     elements are NOT encoded; they keep their Go types, so what a consumer sees of
-                     an element is its own rendering (marker for an opaque element); elements are
-                     (opaque?, zero?, text)
+     XArray l        array: encoded element by element like a slice (fix b32d82269; before it an array
+                     fell into the default branch and its elements kept their Go types); elements
+                     are (opaque?, zero?, text)
      XMap n kvs      map: keys must encode to strings (string kinds, TextMarshaler keys), anything
                      else makes the whole Marshal fail (errNonStringEncodedKey)
      XStruct fs      fields (name, omitempty?, value): skipped when omitempty and IsZero, or when
